@@ -24,6 +24,7 @@ RULE = (
     "selects exactly the named branch or raises; without hint the C09 rule where the statement defines it; reading with "
     "named-type reporting and writing the result back reproduces the bytes. distinct_nontrivial = distinct (schema, datum, "
     "option) triples."
+    ' Every union with named branches is explored a second time as its twin (same names, redefined enum symbols / fixed size / record fields) and then once more in its original version, in the same process.'
 )
 ASSUMPTIONS = [
     "where the statement is silent (a datum conforming to both a record and a non-record branch) only conformance and determinism are asserted",
